@@ -909,14 +909,14 @@ def corpus():
     yield {"op": "silence", "w": 2, "rate": 8, "d": 0.3}
     yield {"op": "sine", "w": 1, "rate": 8, "d": 0.5, "freq": 2, "amp": None}
     yield {"op": "extract", "w": 1, "rate": 8, "hex": ramp(40, 1), "t0": 0.06, "t1": 0.40}
-    # C16-2 (fixed, 300c9d2): a window that starts outside the recording made setpos raise wave.Error (QueryWav) where the
+    # C16-2 (fixed, 3f424d1): a window that starts outside the recording made setpos raise wave.Error (QueryWav) where the
     # in-memory path wrapped around; both now address the first / last sample of the recording
     for w in WIDTHS:
         yield {"op": "extract", "w": w, "rate": 8, "hex": ramp(16, w), "t0": -0.5, "t1": 0.5}
         yield {"op": "extract", "w": w, "rate": 8, "hex": ramp(16, w), "t0": 1.5, "t1": 9.0}
         yield {"op": "extract", "w": w, "rate": 8, "hex": ramp(16, w), "t0": 3.0, "t1": 9.0}
         yield {"op": "extract", "w": w, "rate": 8, "hex": ramp(16, w), "t0": -2.0, "t1": -1.0}
-        # C16-3 (fixed, 0a07868): a reversed range wrote an empty file; it is an ArgumentError now (QueryWav.getFrames)
+        # C16-3 (fixed, 906b45b): a reversed range wrote an empty file; it is an ArgumentError now (QueryWav.getFrames)
         yield {"op": "extract", "w": w, "rate": 8, "hex": ramp(16, w), "t0": 0.5, "t1": 0.25}
         yield {"op": "extract", "w": w, "rate": 8, "hex": ramp(16, w), "t0": 0.5, "t1": -0.25}
     # splitAudioOnTier
